@@ -23,7 +23,8 @@ LEVEL = "exploration"
 RULE = ("Records (240..2400 bases, linear and circular) are laid out by construction: 1-4 disjoint groups of "
         "areas (gaps of 0 = touching, or larger; first/last group touching position 0 / the record end; on "
         "circular records rotated so that a group spans the origin; 1 case in 6 is a small contig whose single "
-        "group covers the whole record, mostly linear), each group holding 0-3 protoclusters "
+        "group covers the whole record, half of them circular and then also with an area spanning the origin next to "
+        "an area [0:L) or to one covering the rest of the circle), each group holding 0-3 protoclusters "
         "(core inside the neighbourhood, one optionally sideloaded) and 0-2 subregions with boundary-biased "
         "coordinates; genes from the shared gene layout (both strands, multi-exon, origin-spanning) plus genes "
         "anchored at area boundaries; PFAM/aSDomain/CDS_motif annotations on any gene, prepeptides (leader/"
@@ -38,7 +39,8 @@ ASSUMPTIONS = [
     "a feature is 'inside' a region when each of its parts lies wholly before or wholly after the origin inside the "
     "region's span; 'covers the same bases' is judged on the transcript-ordered base list mapped by "
     "(position - region start) mod record length",
-    "the loader numbers areas by position (record.py add_* use bisect on (start, -length)); the numbers in a region "
+    "the loader numbers areas by position (record.py add_* use bisect on CDSCollection.__lt__: a containing area "
+    "first, else (start, -length), an area still spanning the origin before all others); the numbers in a region "
     "file must follow that order, pairs with equal (start, length) are left unjudged (C10's tie question)",
     "'the full record' is the SeqRecord handed to the writer (or Record.to_biopython()): its GenBank text plus all "
     "annotations, ids, dbxrefs, letter annotations and the feature count, compared before and after each write",
